@@ -5,6 +5,7 @@ import (
 	"fmt"
 	"math/big"
 	"runtime"
+	"strconv"
 	"strings"
 
 	"cosmossdk.io/math"
@@ -152,7 +153,11 @@ func genCCID(r *rng.R) *core.CrossChainID {
 func genGenesisDoc(r *rng.R) *orbtypes.GenesisState {
 	mostlyValid = r.Chance(60)
 	if mostlyValid {
-		return genValidishDoc(r)
+		g := genValidishDoc(r)
+		if r.Chance(40) {
+			spoilOneID(r, g)
+		}
+		return g
 	}
 	g := &orbtypes.GenesisState{}
 	if !r.Chance(3) {
@@ -292,6 +297,14 @@ func Genesis(r *rng.R, n int) Result {
 			g := &gen{r: cr, w: wr.w, a: wr.a, p: prof, cdc: wr.cdc}
 			nops := prof.minOps + cr.Intn(prof.maxOps-prof.minOps+1)
 			var hist []string
+			if cr.Chance(12) {
+				// more paused counterparties under one protocol than one message (or one page of a listing) holds
+				for _, m := range manyPaused(cr) {
+					op := world.Op{Kind: "msg", Msg: m}
+					o := wr.w.RunOp(ctx, op)
+					hist = append(hist, describeOp(op, pktInfo{}, o))
+				}
+			}
 			for i := 0; i < nops; i++ {
 				var op world.Op
 				if cr.Chance(50) {
@@ -325,7 +338,7 @@ func Genesis(r *rng.R, n int) Result {
 				initV = cq.VL(cq.VZ(0), genesisV(exp2))
 			}
 			c = Case{Input: "GState " + st.Coq(), Expected: cq.VL(genesisV(exported), cq.VZ(int64(vClass)), initV), Desc: desc,
-				Kind: fmt.Sprintf("state/p%d-c%d-a%d-s%d", len(st.Protos), len(st.CC), len(st.Actions), len(st.Amounts)),
+				Kind:    fmt.Sprintf("state/p%d-c%d-a%d-s%d", len(st.Protos), len(st.CC), len(st.Actions), len(st.Amounts)),
 				NonTriv: len(st.Protos)+len(st.CC)+len(st.Actions)+len(st.Amounts) > 0, Key: string(bz)}
 			fail := func(sig, what string) {
 				res.Failures = append(res.Failures, Failure{What: what, Sig: sig, Prop: "C17", Case: desc})
@@ -395,6 +408,32 @@ func Genesis(r *rng.R, n int) Result {
 			if vErr == nil && iClass != 0 {
 				res.Failures = append(res.Failures, Failure{What: "a genesis accepted by ValidateGenesis cannot be initialised: " + what, Sig: "valid-not-initialisable", Prop: "C17", Case: desc})
 			}
+			if vErr == nil {
+				// C20: whatever validation accepts as a CCTP / Hyperlane destination or source is the decimal form of a 32-bit domain
+				var ids []*core.CrossChainID
+				if g.DispatcherGenesis != nil {
+					for i := range g.DispatcherGenesis.DispatchedAmounts {
+						ids = append(ids, g.DispatcherGenesis.DispatchedAmounts[i].SourceId, g.DispatcherGenesis.DispatchedAmounts[i].DestinationId)
+					}
+					for i := range g.DispatcherGenesis.DispatchedCounts {
+						ids = append(ids, g.DispatcherGenesis.DispatchedCounts[i].SourceId, g.DispatcherGenesis.DispatchedCounts[i].DestinationId)
+					}
+				}
+				if g.ForwarderGenesis != nil {
+					ids = append(ids, g.ForwarderGenesis.PausedCrossChainIds...)
+				}
+				for _, id := range ids {
+					if id == nil || (id.ProtocolId != core.PROTOCOL_CCTP && id.ProtocolId != core.PROTOCOL_HYPERLANE) {
+						continue
+					}
+					n, err := strconv.ParseUint(id.CounterpartyId, 10, 32)
+					if err != nil || strconv.FormatUint(n, 10) != id.CounterpartyId {
+						res.Failures = append(res.Failures, Failure{What: fmt.Sprintf("genesis validation accepts the identifier (%s, %q), which is not the decimal form of a 32-bit domain", id.ProtocolId, id.CounterpartyId),
+							Sig: "noncanonical-id-accepted", Prop: "C20", Case: desc})
+						break
+					}
+				}
+			}
 		}
 		if seen[c.Key] {
 			continue
@@ -408,3 +447,55 @@ func Genesis(r *rng.R, n int) Result {
 }
 
 var _ = sim.USDC
+
+// manyPaused is two batches of cross-chain pauses for one protocol: 100 identifiers, then 1-30 more.
+func manyPaused(r *rng.R) []world.Msg {
+	proto := rng.Pick(r, []string{"PROTOCOL_CCTP", "PROTOCOL_HYPERLANE"})
+	var a, b []string
+	for i := 0; i < 100; i++ {
+		a = append(a, fmt.Sprint(1000+i))
+	}
+	for i := 1 + r.Intn(30); i > 0; i-- {
+		b = append(b, fmt.Sprint(2000+i))
+	}
+	return []world.Msg{{Kind: "PauseCrossChains", Signer: sim.Authority, ID: proto, IDs: a}, {Kind: "PauseCrossChains", Signer: sim.Authority, ID: proto, IDs: b}}
+}
+
+// spoilOneID gives exactly one identifier of an otherwise valid document a spelling validation must refuse.
+func spoilOneID(r *rng.R, g *orbtypes.GenesisState) {
+	var ids []*core.CrossChainID
+	if g.DispatcherGenesis != nil {
+		for i := range g.DispatcherGenesis.DispatchedAmounts {
+			e := &g.DispatcherGenesis.DispatchedAmounts[i]
+			// entries share identifier objects with nothing else: copy before changing
+			src, dst := *e.SourceId, *e.DestinationId
+			e.SourceId, e.DestinationId = &src, &dst
+			ids = append(ids, e.SourceId, e.DestinationId)
+		}
+		for i := range g.DispatcherGenesis.DispatchedCounts {
+			e := &g.DispatcherGenesis.DispatchedCounts[i]
+			src, dst := *e.SourceId, *e.DestinationId
+			e.SourceId, e.DestinationId = &src, &dst
+			ids = append(ids, e.SourceId, e.DestinationId)
+		}
+	}
+	if g.ForwarderGenesis != nil {
+		for i, c := range g.ForwarderGenesis.PausedCrossChainIds {
+			cp := *c
+			g.ForwarderGenesis.PausedCrossChainIds[i] = &cp
+			ids = append(ids, &cp)
+		}
+	}
+	if len(ids) == 0 {
+		return
+	}
+	id := ids[r.Intn(len(ids))]
+	switch id.ProtocolId {
+	case core.PROTOCOL_CCTP, core.PROTOCOL_HYPERLANE:
+		id.CounterpartyId = rng.Pick(r, []string{"01", "007", "+1", "-1", "4294967296", "", "x", "1 ", " 1", "channel-0", "1:2", "0x1"})
+	case core.PROTOCOL_IBC:
+		id.CounterpartyId = rng.Pick(r, []string{"chan", "", "0", "channel-", "channel--1", "channel-18446744073709551616", "Channel-0"})
+	default:
+		id.CounterpartyId = rng.Pick(r, []string{"", "a\x00b", "123456789012345678901234567890123"})
+	}
+}
